@@ -162,17 +162,11 @@ def h_loop(a, inst):
     pre = [a.p0] + list(a.pos)
     preempts = []
     for i in range(inst["P"]):
-        hi = min(300, L + 2)
-        p = hi
-        for c in range(0, hi + 1):
-            if pre[i] == c:
-                p = c
-        t = 0
-        for c in range(4):
-            if a.tgt[i] == c:
-                t = c
-        preempts.append((p, t))
-    ok, _ = run(preempts)
+        if pre[i] > L + 2:
+            return True  # positions beyond the end of the run are all "no preemption" (covered by the baseline run)
+        preempts.append((gate.concrete(pre[i], 0, L + 2), gate.concrete(a.tgt[i], 0, 3)))
+    with gate.untraced():
+        ok, _ = run(preempts)
     cover("ran")
     return ok
 
